@@ -4,12 +4,13 @@ from vcheck import *
 META = {
     "category": "proof",
     "text": "PROVED (Coq, all inputs): the semantic-token encoder SemanticBuilder::build (sort, overlap flattening, delta encoding) — for ANY pushed tokens the stream a client decodes is exactly the sorted+flattened list (decode_build), strictly ordered, never overlapping, without empty tokens (build_ordered_no_overlap), and identical to the sorted input when that was already disjoint (build_disjoint_input); de-duplication by start alone (the code before the fix) does not prevent overlap (overlap_possible_refuted, replayed on the real server and fixed); the selection-range chain builder push_growing_range yields strictly growing ranges for any candidate sequence (selection_chain_strict). The encoder model is tied to the real push_data/build by an exact correspondence through a cfg hook. VERIFIED CHECKER, NOT A PROOF ABOUT THE HANDLERS: for document symbols, folding ranges, selection ranges, completion main edits, workspace edits and decoded semantic tokens versus document and legend, the validity predicates are Gallina booleans whose meaning is proved (symbols_nested_spec, folds_valid_spec, selection_strictly_growing_spec, completion_edit_spec, edits_disjoint_spec, tokens_valid_spec) and are evaluated by coqc on the results the real in-process server returns; that the handlers always produce valid results is explored by search (generated and bundled std documents x all structure-returning requests x positions), not proved.",
-    "note": "Trusted: Coq kernel; hand model of semantic_token_builder.rs and push_growing_range (encoder tied by exact correspondence on generated push sequences; slice::sort_unstable_by_key assumed to sort); u32 arithmetic modelled unbounded; the python conversion of JSON results to Coq terms; the Rust search oracle for the parts not re-checked in Coq (generic range-in-document walk over every result). Open finding: whole-document range ends at (line_count, 0). Axioms: none.",
+    "note": "Trusted: Coq kernel; hand model of semantic_token_builder.rs and push_growing_range (encoder tied by exact correspondence on generated push sequences; slice::sort_unstable_by_key assumed to sort); u32 arithmetic modelled unbounded; the python conversion of JSON results to Coq terms; the Rust search oracle for the parts not re-checked in Coq (generic range-in-document walk over every result). Open finding: the whole-document range ends at (line_count, 0) (document_lsp_range_refuted proves it is never inside the document). Axioms: none.",
     "technique": "Coq proof (induction with an ordered/disjoint-from-(line,col) invariant over the sweep) about a hand-written Gallina transcription + exact model-vs-implementation correspondence through a cfg hook + Gallina validity checkers with proved specifications run on real server results + oracle search on the real in-process server",
 }
 
 THEOREMS = [("decode_build", "theorem"), ("build_ordered_no_overlap", "theorem"), ("build_disjoint_input", "theorem"),
             ("overlap_possible_refuted", "refutation"), ("selection_chain_strict", "theorem"),
+            ("document_lsp_range_refuted", "refutation"),
             ("symbols_nested_spec", "theorem"), ("folds_valid_spec", "theorem"), ("selection_strictly_growing_spec", "theorem"),
             ("completion_edit_spec", "theorem"), ("edits_disjoint_spec", "theorem"), ("tokens_valid_spec", "theorem"),
             ("build_example", "example")]
@@ -187,10 +188,10 @@ def main(argv):
     if bins:
         have_corr = os.path.exists(os.path.join(COQ, "theories/C26/Corr.vo"))
         if have_corr:
-            encoder_correspondence(ck, bins["c26"], ck.scale(400, 6000))
+            encoder_correspondence(ck, bins["c26"], ck.scale(250, 6000))
         if ck.broken:
             ck.deep = True
-        obs = run_search(ck, bins["c26"], ck.scale(40, 400), ck.scale(10, 30), ck.scale(4, 6), ck.scale(40, 200))
+        obs = run_search(ck, bins["c26"], ck.scale(40, 400), ck.scale(10, 30), ck.scale(4, 6), ck.scale(24, 200))
         if have_corr and obs:
             verified_checker(ck, obs)
     ck.finish(
